@@ -291,12 +291,14 @@ EXCLUSIONS = {'fork_with_suspended_generator_session': _fork_with_suspended_gene
 MANIFEST = {
     'text': 'Generated fork histories with real os.fork() on a file-backed SQLite database: parent state at the fork point '
             '(disconnected / idle pooled connection / open session after read, with uncommitted write, with unflushed object, '
-            'after commit) x child script (read, write+commit, get_connection, disconnect, rollback, nested fork) x order x '
+            'after commit, @db_session generator suspended after a read) x child script (read, write+commit, get_connection, '
+            'disconnect, rollback, a read whose first connection attempt fails once, generator resume, nested fork) x order x '
             'parent script; a complete grid of short histories plus hypothesis-drawn longer ones. A recording '
             'sqlite3.Connection subclass gives creator pid and calling pid of every statement; a pony-free judge requires '
             'that no statement is issued on a connection created by another process, that the parent session and its '
             'uncommitted write survive and commit, and that every read in a new session equals the set of writes reported '
-            'committed so far. The generic Pool and OraPool are driven directly with recording fake driver objects and forks.',
+            'committed so far. The generic Pool and OraPool are driven directly with recording fake driver objects, forks and '
+            'injected driver-level connect failures (the next connect of a process raises once, then it retries).',
     'note': 'PostgreSQL/MySQL/Oracle are represented only by their pool classes on fake drivers (no server, no driver); '
             'processes are serialised by the harness (no concurrent interleavings); hangs are inconclusive, not violations, '
             'except a provable single-thread deadlock on the SQLite transaction lock; forks of multi-threaded parents '
